@@ -10,11 +10,11 @@ from harness.drivers import c02
 chk = Check("C02X")
 def case(name, cfg, backend="einsum", cplx=True):
     return {"id": name, "k": 0, "cfg": cfg, "backend": backend, "draw": 1, "cplx": cplx, "seed": 1, "derived": {}}
-F = {"ity": "int", "dt": "same", "ct": "list"}          # argument forms
-md = dict({"op": "mode_dot", "shape": [2, 3, 2], "mode": 1, "vec": False, "J": 2, "tr": True, "bad": False}, ity="i64", dt="int_f", ct="list", sc=[0, 1, 0, 0])
-kr = dict({"op": "khatri_rao", "rows": [2, 3], "R": 2, "skip": 0, "w": True, "mask": True, "bad": False}, ity="i32", dt="f32_f64", ct="tuple", sc=[0, 2, 0, 0])
+F = {"ity": "int", "dt": "same", "ct": "list", "rep": 1, "me": 0, "e2": 0}          # argument forms
+md = dict({"op": "mode_dot", "shape": [2, 3, 2], "mode": 1, "vec": False, "J": 2, "tr": True, "bad": False}, ity="i64", dt="int_f", ct="list", sc=[0, 1, 0, 0], rep=2, me=0, e2=0)
+kr = dict({"op": "khatri_rao", "rows": [2, 3], "R": 2, "skip": 0, "w": True, "mask": True, "bad": False}, ity="i32", dt="f32_f64", ct="tuple", sc=[0, 2, 0, 0], rep=1, me=0, e2=0)
 td = {"op": "tensordot", "s1": [2, 3], "s2": [2, 3, 3], "m1": [], "m2": [], "b1": [-1, -2], "b2": [-1, -3], "mint": False, "bint": False, "neg": "b", "sc": [0, 0, 0, 0], **F}
-sk = {"op": "sampled_kr", "rows": [2, 3, 2], "R": 2, "skip": 1, "ns": 3, "given": False, "sc": [0, 0, 0, 0, 0], **F}
+sk = {"op": "sampled_kr", "rows": [2, 3, 2], "R": 2, "skip": 1, "ns": 3, "given": False, "idt": "rng", "sc": [0, 0, 0, 0, 0], **F}
 bad = {"op": "mode_dot", "shape": [2, 3], "mode": 0, "vec": True, "J": 0, "tr": False, "bad": True, "sc": [0, 0, 0, 0], **F}
 good = {n: c02.execute(case(n, c, be)) for n, c, be in [("good_mode_dot", md, "core"), ("good_khatri_rao", kr, "einsum"),
                                                         ("good_tensordot", td, "core"), ("good_sampled_kr", sk, "core"),
@@ -23,29 +23,33 @@ evs = list(good.values())
 expect = {}
 def mut(name, base, clause, f):
     e = copy.deepcopy(good[base]); e["id"] = name; f(e); evs.append(e); expect[name] = clause
-mut("value_re", "good_mode_dot", "Value", lambda e: e["out"]["re"].__setitem__(5, e["out"]["re"][5] + 1))
-mut("value_conj", "good_mode_dot", "Value", lambda e: e["out"].__setitem__("im", [-v for v in e["out"]["im"]]))
-mut("shape_swapped", "good_mode_dot", "Shape", lambda e: e["out"].__setitem__("shape", [2, 2, 2][::-1] + [1]))
-mut("data_short", "good_mode_dot", "Shape", lambda e: (e["out"]["re"].pop(), e["out"]["im"].pop()))
-mut("inexact", "good_mode_dot", "Exact", lambda e: e["out"].__setitem__("exact", False))
-mut("raised_unexpectedly", "good_mode_dot", "Outcome", lambda e: e["out"].update(kind="raised"))
+mut("value_re", "good_mode_dot", "Value", lambda e: e["outs"][0]["re"].__setitem__(5, e["outs"][0]["re"][5] + 1))
+mut("value_conj", "good_mode_dot", "Value", lambda e: e["outs"][0].__setitem__("im", [-v for v in e["outs"][0]["im"]]))
+mut("shape_swapped", "good_mode_dot", "Shape", lambda e: e["outs"][0].__setitem__("shape", [2, 2, 2][::-1] + [1]))
+mut("data_short", "good_mode_dot", "Shape", lambda e: (e["outs"][0]["re"].pop(), e["outs"][0]["im"].pop()))
+mut("inexact", "good_mode_dot", "Exact", lambda e: e["outs"][0].__setitem__("exact", False))
+mut("raised_unexpectedly", "good_mode_dot", "Outcome", lambda e: e["outs"][0].update(kind="raised"))
 mut("input_changed", "good_mode_dot", "Value", lambda e: e["in"]["ts"][1]["im"].__setitem__(0, -e["in"]["ts"][1]["im"][0] or 1))
 mut("input_out_of_range", "good_mode_dot", "Inputs", lambda e: e["in"]["ts"][0]["re"].__setitem__(0, 9))
 mut("operand_shape", "good_mode_dot", "Inputs", lambda e: e["in"]["ts"][1].__setitem__("shape", [2, 3]))
 mut("cfg_mode_out_of_range", "good_mode_dot", "InDomain", lambda e: e["cfg"].__setitem__("mode", 3))
 mut("cfg_missing_field", "good_mode_dot", "InDomain", lambda e: e["cfg"].pop("tr"))
 mut("cfg_other_mode", "good_mode_dot", "Inputs", lambda e: e["cfg"].__setitem__("mode", 0))
-mut("kr_unweighted", "good_khatri_rao", "Value", lambda e: e["out"].update(re=e["in"]["ts"][1]["re"], im=e["in"]["ts"][1]["im"]))
+mut("kr_unweighted", "good_khatri_rao", "Value", lambda e: e["outs"][0].update(re=e["in"]["ts"][1]["re"], im=e["in"]["ts"][1]["im"]))
 mut("kr_weights_missing", "good_khatri_rao", "Inputs", lambda e: e["in"].__setitem__("w", c02.ABSENT))
 mut("cfg_scale_codes", "good_mode_dot", "InDomain", lambda e: e["cfg"].__setitem__("sc", [0, 0, 0, 0]))
 mut("cfg_int_form", "good_mode_dot", "InDomain", lambda e: e["cfg"].__setitem__("ity", "long"))
-mut("value_truncated", "good_mode_dot", "Exact", lambda e: e["out"].update(exact=False, re=[v // 2 * 2 for v in e["out"]["re"]]))
+mut("value_truncated", "good_mode_dot", "Exact", lambda e: e["outs"][0].update(exact=False, re=[v // 2 * 2 for v in e["outs"][0]["re"]]))
+mut("second_call_differs", "good_mode_dot", "Repeat", lambda e: e["outs"][1]["re"].__setitem__(0, e["outs"][1]["re"][0] + 1))
+mut("second_call_raised", "good_mode_dot", "Repeat", lambda e: e["outs"][1].update(kind="raised"))
+mut("call_missing", "good_mode_dot", "Calls", lambda e: e["outs"].pop())
+mut("cfg_magnitude", "good_tensordot", "InDomain", lambda e: e["cfg"].__setitem__("e2", 7))
 mut("td_neg_flag", "good_tensordot", "InDomain", lambda e: e["cfg"].__setitem__("neg", "none"))
-mut("td_transposed", "good_tensordot", "Value", lambda e: e["out"].__setitem__("re", e["out"]["re"][::-1]))
-mut("sk_row", "good_sampled_kr", "Rows", lambda e: e["out"]["rows"].__setitem__(0, (e["out"]["rows"][0] + 1) % 4))
-mut("sk_index_range", "good_sampled_kr", "Indices", lambda e: e["out"]["idx"][1].__setitem__(0, 2))
-mut("sk_value", "good_sampled_kr", "Value", lambda e: e["out"]["re"].__setitem__(0, e["out"]["re"][0] + 1))
-mut("no_raise", "good_raises", "Outcome", lambda e: e["out"].update(kind="value"))
+mut("td_transposed", "good_tensordot", "Value", lambda e: e["outs"][0].__setitem__("re", e["outs"][0]["re"][::-1]))
+mut("sk_row", "good_sampled_kr", "Rows", lambda e: e["outs"][0]["rows"].__setitem__(0, (e["outs"][0]["rows"][0] + 1) % 4))
+mut("sk_index_range", "good_sampled_kr", "Indices", lambda e: e["outs"][0]["idx"][1].__setitem__(0, 2))
+mut("sk_value", "good_sampled_kr", "Value", lambda e: e["outs"][0]["re"].__setitem__(0, e["outs"][0]["re"][0] + 1))
+mut("no_raise", "good_raises", "Outcome", lambda e: e["outs"][0].update(kind="value"))
 rej = chk.validate("MultilinearTrace", evs)
 got = {r[0]: r[1] for r in rej}
 for k in sorted(got): print(k, got[k], "(expected %s)" % expect.get(k, "ACCEPT"))
